@@ -37,13 +37,14 @@ def dump(which, repo=REPO, quiet=True):
     out = os.path.join(d, which + ".mir")
     if os.path.exists(out) and os.path.getsize(out) > 1000: return out, sh, 0.0
     t0 = time.time()
-    env = dict(os.environ); env.update(CARGO_TARGET_DIR=os.path.join(WORK, "target-mir"), CARGO_NET_OFFLINE="true", RUSTUP_TOOLCHAIN=NIGHTLY)
+    tdir = os.path.join(WORK, "target-mir" if repo == "/repo" else "target-mir-alt-" + hashlib.sha1(repo.encode()).hexdigest()[:8])
+    env = dict(os.environ); env.update(CARGO_TARGET_DIR=tdir, CARGO_NET_OFFLINE="true", RUSTUP_TOOLCHAIN=NIGHTLY)
     env.pop("RUSTFLAGS", None)
     cmd = ["cargo", "rustc", "--offline", "-p", pkg, "--lib", "--", "-Zunpretty=mir", "-C", "debug-assertions=off",
            "-C", "overflow-checks=on", "--cfg", 'mirsym_nonce="%s"' % sh, "-A", "unexpected_cfgs"]
     # a lock so that concurrently started checks do not dump twice
     import fcntl
-    with open(os.path.join(WORK, "mir.lock"), "w") as lk:
+    with open(tdir + ".lock", "w") as lk:
         fcntl.flock(lk, fcntl.LOCK_EX)
         if os.path.exists(out) and os.path.getsize(out) > 1000: return out, sh, 0.0
         p = subprocess.run(cmd, cwd=repo, env=env, stdout=subprocess.PIPE, stderr=subprocess.PIPE)
@@ -54,7 +55,7 @@ def dump(which, repo=REPO, quiet=True):
     # keep at most 6 cached dumps
     root = os.path.join(WORK, "mir")
     ds = sorted((os.path.getmtime(os.path.join(root, x)), x) for x in os.listdir(root) if os.path.isdir(os.path.join(root, x)))
-    for _, x in ds[:-6]:
+    for _, x in ds[:-40]:
         import shutil; shutil.rmtree(os.path.join(root, x), ignore_errors=True)
     return out, sh, time.time() - t0
 
